@@ -598,6 +598,59 @@ field (`droppedLinksCount` into `DroppedEventsCount`), reads an enum with `ReadI
 (three of the five repaired defects) no longer type-checks here, before any input is generated. -/
 theorem C08_json_readers_typed : readersOk otlp Gen.OtlpSchema.readers = true := by decide +kernel
 
+
+/-! ## bit-exact losslessness fails for `-0.0` in a plain proto3 double field (open finding, recorded — not a canonical-form footnote) -/
+
+/-- index of `metrics.SummaryDataPoint_ValueAtQuantile` (two plain doubles: `quantile`, `value`) -/
+def quantileIdx : Nat := (otlp.msgs.findIdx? (fun m => m.name == "metrics.SummaryDataPoint_ValueAtQuantile")).getD 0
+
+/-- `ValueAtQuantile{Quantile: -0.0, Value: 0}` as the decoder / the setters store it -/
+def negZeroQuantile : Val := .cons (.num (2 ^ 63)) (.cons (.num 0) .nil)
+
+/-- lossless **bit for bit** for every decoder-shaped value (`confD` admits the stored `-0.0`; `Conforms` excludes it) -/
+def C08_pb_bitwise_full : Prop :=
+  ∀ m v, confD otlp (.slots (otlp.slots m)) v = true → (encode otlp m v).length < 2 ^ 63 →
+    decode otlp otlpD m (encode otlp m v) = some v
+
+set_option maxRecDepth 100000 in
+theorem quantile_shape : ∃ f1 f2, otlp.slots quantileIdx = [.one f1, .one f2] ∧
+    f1.card = .opt ∧ f1.ty = .double ∧ f2.card = .opt ∧ f2.ty = .double := by
+  have h : (match otlp.slots quantileIdx with
+      | [.one f1, .one f2] => f1.card == .opt && f1.ty == .double && f2.card == .opt && f2.ty == .double
+      | _ => false) = true := by decide +kernel
+  split at h
+  · next f1 f2 hs =>
+    simp only [Bool.and_eq_true, beq_iff_eq] at h
+    exact ⟨f1, f2, hs, h.1.1.1, h.1.1.2, h.1.2, h.2⟩
+  · cases h
+
+theorem negZero_encodes_empty : encode otlp quantileIdx negZeroQuantile = [] := by
+  obtain ⟨f1, f2, hs, hc1, ht1, hc2, ht2⟩ := quantile_shape
+  rw [encode, hs, negZeroQuantile, enc_slots_cons, enc_slots_cons, enc_slots_nil]
+  have h1 : enc otlp (.slot (.one f1)) (.num (2 ^ 63)) = [] := by
+    (conv => lhs; rw [enc]); simp [hc1, ht1, isZero]
+  have h2 : enc otlp (.slot (.one f2)) (.num 0) = [] := by
+    (conv => lhs; rw [enc]); simp [hc2, ht2, isZero]
+  rw [h1, h2]; rfl
+
+set_option maxRecDepth 100000 in
+/-- **Kernel-checked witness**: the generated marshaler tests a plain double with `!= 0`, which is false for `-0.0`, so the field is
+not written and comes back as `+0.0` — `math.Signbit` is lost in `SummaryDataPoint.sum`, `ValueAtQuantile.quantile/value` and
+`ExponentialHistogramDataPoint.zero_threshold` (protobuf-go writes `-0.0`; gogo does not).  Numerically equal, bitwise not:
+recorded as open finding `C08/pb/roundtrip/negative-zero-dropped` (harness corpus case 4 replays it through the public API);
+all other theorems are stated for the canonical form `Conforms`, which excludes exactly this bit pattern in these fields. -/
+theorem C08_pb_bitwise_full_fails : ¬ C08_pb_bitwise_full := by
+  intro h
+  obtain ⟨f1, f2, hs, hc1, ht1, hc2, ht2⟩ := quantile_shape
+  have hconf : confD otlp (.slots (otlp.slots quantileIdx)) negZeroQuantile = true := by
+    rw [hs, negZeroQuantile, confD_slots_cons, confD_slots_cons, confD_slots_nil, confD_slot_one, confD_slot_one]
+    simp [hc1, hc2, ht1, ht2, leafOk, scalarOk]
+  have := h quantileIdx negZeroQuantile hconf (by rw [negZero_encodes_empty]; decide)
+  rw [negZero_encodes_empty, decode, decMsg_nil] at this
+  have hd : otlpD.getD quantileIdx .nil = .cons (.num 0) (.cons (.num 0) .nil) := by decide +kernel
+  rw [hd] at this
+  exact absurd (Option.some.inj this) (by decide)
+
 /-! ## non-vacuity: a small schema using every slot discipline, a conforming value with extreme numerics -/
 def S0 : Schema := { msgs := [
   { name := "t.Inner", slots := [.one { num := 1, go := "A", json := "a", orig := "a", ty := .u64 }], jsonKeys := ["a"] },
